@@ -22,7 +22,7 @@ import sys
 import threading as _real_threading
 
 import os
-REPO = os.environ.get('VERIF_REPO', '/repo')
+REPO = (os.environ.get('VERIF_REPO') or '/repo')
 if REPO not in sys.path:
     sys.path.insert(0, REPO)
 
